@@ -230,6 +230,7 @@ func TestWorker(t *testing.T) {
 	default:
 		eng := info.Engine
 		deadline := time.UnixMilli(sp.DeadlineMS)
+		deadlineNS.Store(deadline.Add(20 * time.Second).UnixNano())
 		seen := map[uint64]bool{}
 		seenI := map[uint64]bool{}
 		maxViol := sp.MaxViol
